@@ -149,15 +149,49 @@ def verdict(chk, run, tier, seed):
     ok_disp = sum(1 for r in drows if not dcls.get(str(r["idx"])))
     chk.cov["theorem_coverage"] = {"actions": len(drows), "rawsql_ok=true (display_total applies)": ok_disp,
                                    "known_C16_rawsql_slice=true": len(drows) - ok_disp,
-                                   "stages_only_tested": "plan_next_migration, build_plan_queries/.build (3 backends), exporter text rendering",
+                                   "stages_only_tested": "build_plan_queries/.build (3 backends), exporter text rendering (planner: proved on the M1 model)",
                                    "oracle_failures": n_disp_panics + len(fails), "classified_known": dict(known_hits), "unexplained": len(unexplained)}
     chk.cov["cached_run"] = {"disp": disp.get("cached"), "exp": exp.get("cached"), "c16": o16.get("cached")}
+
+
+def planner_stage(chk):
+    """Planner part of C16: coq/m1/Properties/C16_planner.v (the planner model never ends in its panic /
+    out-of-fuel outcome).  Its pins are added to this check's obligations."""
+    name = "C16_planner"
+    bad = vflib.grep_forbidden("m1")
+    rc, out = vflib.build_layer("m1", targets=vflib.model_targets("m1") + ["Properties/%s.vo" % name])
+    if rc != 0:
+        import re
+        m = re.findall(r'File "([^"]+)", line (\d+)', out)
+        chk.violation(vflib.write_replay(PROP, "theorem:%s-build" % name, {"layer": "m1", "first_error": m[:1], "log_tail": out[-3000:]}), True)
+        chk.cov["obligations"] = chk.cov.get("obligations", 0) + 5
+        return False
+    r = vflib.compile_property("m1", name)
+    chk.cov["obligations"] = chk.cov.get("obligations", 0) + r["obligations"]
+    chk.cov["discharged"] = chk.cov.get("discharged", 0) + r["discharged"]
+    chk.cov["theorems"] = chk.cov.get("theorems", []) + r["theorems"]
+    chk.cov["axioms_reported"] = sorted(set(chk.cov.get("axioms_reported", [])) | set(r["axioms"]))
+    chk.cov["closed_under_global_context"] = chk.cov.get("closed_under_global_context", 0) + r["closed"]
+    chk.cov["checker_cmd"] = chk.cov.get("checker_cmd", "") + " && coqc coq/m1/Properties/%s.v" % name
+    unexpected = [a for a in r["axioms"] if a.split(".")[-1] not in {x.split(".")[-1] for x in vflib.AXIOM_ALLOW}]
+    ok = True
+    if not r["ok"]:
+        import re
+        m = re.findall(r'File "([^"]+)", line (\d+)', r["output"])
+        chk.violation(vflib.write_replay(PROP, "theorem:%s" % name, {"file": "coq/m1/Properties/%s.v" % name, "first_error": m[:1],
+                                                                     "log_tail": r["output"][-3000:]}), True)
+        ok = False
+    if unexpected or bad:
+        chk.violation(vflib.write_replay(PROP, "theorem:axioms", {"unexpected_axioms": unexpected, "forbidden": bad}), True)
+        ok = False
+    return ok
 
 
 def run(tier, seed):
     chk = vflib.Check(PROP, tier, seed)
     chk.assumptions = ["PROVED (model = coq/exp/Model/Display.v, Names.v; tie = K-disp, K-exp inside Coq): exact characterisation of the panicking inputs of Display for MigrationAction, totality of the CLI's format_action model, non-termination of resolve_fk_target on single-column FK cycles and fuel-independence of its answer elsewhere",
-                       "PARTIAL: planning, SQL generation for the three backends and the text rendering of the exporters are covered by the PanicSites discharge table (every unwrap / expect / panic! / unreachable! / slice / index / direct recursion of the non-test code of core, planner, query, loader, exporter, cli has a tagged entry; 7 query-builder entries are tagged unreviewed) and by the oracle O-C16 (catch_unwind, subprocess per batch, wall-clock cap per stage): tests, not proofs",
+                       "PROVED for the planner model (coq/m1/Model/Diff.v, tied to plan_next_migration by K-diff in the M1 checks; pins in coq/m1/Properties/C16_planner.v): the two fuelled Kahn sorts never run out of fuel and diff_actions / plan_next can only fail with DiffTableValidation or DiffCycle — never with the panic or out-of-fuel outcome",
+                       "PARTIAL: SQL generation for the three backends and the text rendering of the exporters are covered by the PanicSites discharge table (every unwrap / expect / panic! / unreachable! / slice / index / direct recursion of the non-test code of core, planner, query, loader, exporter, cli has a tagged entry; 7 query-builder entries are tagged unreviewed) and by the oracle O-C16 (catch_unwind, subprocess per batch, wall-clock cap per stage): tests, not proofs",
                        "format_action is private to the vespertide binary: its model is proved total but is not tied to the code by a correspondence (the CLI is not run by this check)",
                        "panics inside dependencies (sea-query) are outside the PanicSites inventory; only the oracle sees them"]
     chk.cov["trusted_base"] = vflib.TRUSTED_COMMON + [
@@ -165,6 +199,7 @@ def run(tier, seed):
         "UTF-8: the model treats a byte b as a continuation byte iff 128 <= b < 192 and Rust strings as valid UTF-8",
         "modelled, not verified: Unicode lower-casing of non-ASCII custom type names in to_display_string"]
     vflib.proof_stage(chk, "exp", PROP)
+    planner_stage(chk)
     r = exprun.prepare(tier, seed)
     if "build_error" in r:
         chk.violation(vflib.write_replay(PROP, "correspondence:build", {"log": r["build_error"]}), True)
